@@ -128,6 +128,16 @@ where
     pub vchals: Option<VerifierChals<SymF<C::ScalarField>>>,
     pub prover_tail: Option<[u8; 32]>,
     pub verifier_tail: Option<[u8; 32]>,
+    /// merlin operation log of the whole run and the object ids of the two main transcripts
+    pub log: Vec<merlin::vlog::Event>,
+    pub prover_obj: u64,
+    pub verifier_obj: u64,
+    pub bp_gens: BulletproofGens<SymA<C>>,
+}
+
+/// id of the first transcript created at or after log position `from`
+pub fn first_new_obj(log: &[merlin::vlog::Event], from: usize) -> u64 {
+    log[from.min(log.len())..].iter().find(|e| e.op == "new").map(|e| e.obj).unwrap_or(0)
 }
 
 /// Run prover and verifier of `shape` on the carriers.  `cap_p`/`cap_v` = generator capacities.
@@ -143,6 +153,8 @@ where
     let bases = name_bases(&pc, if cap_p >= cap_v { &bp_p } else { &bp_v }, cap_p.max(cap_v));
     let shr = new_shared::<SymA<C>>(shape, err, Box::new(SymVals::<C::ScalarField>::new(seed)));
     arena::set_ctx("prove");
+    let p_from = merlin::vlog::len();
+    let mut v_from = p_from;
     let (proof, mut pt) = prove_shape(shape, &shr, &pc, &bp_p, seed);
     let mut prover_tail = None;
     let mut verdict = None;
@@ -156,6 +168,7 @@ where
         prover_tail = Some(t);
         rewind_for_verifier(&shr);
         arena::set_ctx("verify");
+        v_from = merlin::vlog::len();
         let mut vt = new_verifier_transcript(shape);
         let verifier = build_verifier(shape, &shr, &mut vt);
         let res = verifier.verify_and_return_transcript(p, &pc, &bp_v).map(|_| ());
@@ -176,7 +189,11 @@ where
         verdict = Some(res);
     }
     arena::set_ctx("post");
-    R1csRun { shr, proof, verdict, bases, pc, residual, vchals, prover_tail, verifier_tail }
+    let log = merlin::vlog::since(0);
+    let prover_obj = first_new_obj(&log, p_from);
+    let verifier_obj = if v_from > p_from { first_new_obj(&log, v_from) } else { 0 };
+    let bp_gens = if cap_p >= cap_v { bp_p } else { bp_v };
+    R1csRun { shr, proof, verdict, bases, pc, residual, vchals, prover_tail, verifier_tail, log, prover_obj, verifier_obj, bp_gens }
 }
 
 /// Reference value of the combined check for a proof made by the honest proving procedure from
